@@ -147,6 +147,8 @@ struct TxCtx {
     frame_writable: Vec<Vec<bool>>,
 }
 thread_local! {
+    /// clock seen by `Clock::get()` when a program function is called outside a transaction
+    static AMBIENT_CLOCK: RefCell<Clock> = RefCell::new(Clock::default());
     static CTX: RefCell<Option<TxCtx>> = const { RefCell::new(None) };
     static REPLY: RefCell<Option<mpsc::Sender<Reply>>> = const { RefCell::new(None) };
 }
@@ -173,7 +175,8 @@ impl SyscallStubs for Stubs {
     }
     fn sol_log_compute_units(&self) {}
     fn sol_get_clock_sysvar(&self, var_addr: *mut u8) -> u64 {
-        with_ctx(|c| unsafe { std::ptr::write_unaligned(var_addr as *mut Clock, c.clock.clone()) });
+        let clock = current_clock();
+        unsafe { std::ptr::write_unaligned(var_addr as *mut Clock, clock) };
         0
     }
     fn sol_get_rent_sysvar(&self, var_addr: *mut u8) -> u64 {
@@ -568,8 +571,47 @@ fn infos_from_ctx() -> Vec<AccountInfo<'static>> {
 }
 
 unsafe fn pino_clock(addr: *mut u8) -> u64 {
-    with_ctx(|c| std::ptr::write_unaligned(addr as *mut Clock, c.clock.clone()));
+    std::ptr::write_unaligned(addr as *mut Clock, current_clock());
     0
+}
+
+fn current_clock() -> Clock {
+    CTX.with(|c| c.borrow().as_ref().map(|c| c.clock.clone())).unwrap_or_else(|| AMBIENT_CLOCK.with(|a| a.borrow().clone()))
+}
+
+/// Clock for function-level calls made outside a transaction on this thread.
+pub fn set_ambient_clock(clock: Clock) {
+    init();
+    AMBIENT_CLOCK.with(|a| *a.borrow_mut() = clock);
+}
+
+/// One account in the BPF loader's input format (for building Pinocchio `AccountInfo`s by hand).
+/// Returns the 8-aligned buffer; `pinocchio::entrypoint::deserialize` parses it.
+pub fn loader_buffer(accounts: &[(Pubkey, Acct, bool, bool)]) -> Vec<u64> {
+    let mut buf: Vec<u8> = vec![];
+    buf.extend_from_slice(&(accounts.len() as u64).to_le_bytes());
+    for (k, a, s, w) in accounts {
+        buf.push(0xff);
+        buf.push(*s as u8);
+        buf.push(*w as u8);
+        buf.push(a.executable as u8);
+        buf.extend_from_slice(&[0u8; 4]);
+        buf.extend_from_slice(k.as_ref());
+        buf.extend_from_slice(a.owner.as_ref());
+        buf.extend_from_slice(&a.lamports.to_le_bytes());
+        buf.extend_from_slice(&(a.data.len() as u64).to_le_bytes());
+        buf.extend_from_slice(&a.data);
+        buf.resize(buf.len() + PAD, 0);
+        while buf.len() % 8 != 0 {
+            buf.push(0);
+        }
+        buf.extend_from_slice(&0u64.to_le_bytes());
+    }
+    buf.extend_from_slice(&0u64.to_le_bytes()); // instruction data length
+    buf.extend_from_slice(whirlpool::ID.as_ref());
+    let mut store: Vec<u64> = vec![0; buf.len() / 8 + 2];
+    unsafe { std::ptr::copy_nonoverlapping(buf.as_ptr(), store.as_mut_ptr() as *mut u8, buf.len()) };
+    store
 }
 unsafe fn pino_rent(addr: *mut u8) -> u64 {
     std::ptr::write_unaligned(addr as *mut Rent, Rent::default());
